@@ -3,6 +3,8 @@
 package vm
 
 import (
+	"strings"
+
 	"github.com/risor-io/risor/internal/verifrt"
 	"github.com/risor-io/risor/object"
 )
@@ -25,10 +27,10 @@ type tmpl struct {
 	ref func(a, b, c, n int64) tOut
 }
 
-func outInt(v int64) tOut   { return tOut{val: rvInt(v)} }
-func outBool(v bool) tOut   { return tOut{val: rvBool(v)} }
-func outNil() tOut          { return tOut{val: rvNil()} }
-func outErr() tOut          { return tOut{val: rvErr()} }
+func outInt(v int64) tOut { return tOut{val: rvInt(v)} }
+func outBool(v bool) tOut { return tOut{val: rvBool(v)} }
+func outNil() tOut        { return tOut{val: rvNil()} }
+func outErr() tOut        { return tOut{val: rvErr()} }
 func outEmit(v rv, e ...int64) tOut {
 	return tOut{val: v, emits: e, checkEmits: true}
 }
@@ -485,6 +487,71 @@ var c01Templates = []tmpl{
 	{"range-switch-continue", "s := 0; for _, v := range [a, b, c] {\n switch v {\n case 0:\n  continue\n }\n s += v }; s", func(a, b, c, n int64) tOut {
 		return outInt(a + b + c)
 	}},
+	// the branches of ?: extend as far as an expression does, whatever token
+	// they begin with
+	{"ternary-branch-starting-with-unary-minus", `a > b ? -a : b + c`, func(a, b, c, n int64) tOut {
+		if a > b {
+			return outInt(-a)
+		}
+		return outInt(b + c)
+	}},
+	{"ternary-branch-in-parentheses", `a > b ? (a) : b + c`, func(a, b, c, n int64) tOut {
+		if a > b {
+			return outInt(a)
+		}
+		return outInt(b + c)
+	}},
+	{"ternary-true-branch-continues-after-parentheses", `a > b ? (a) + 1 : c`, func(a, b, c, n int64) tOut {
+		if a > b {
+			return outInt(a + 1)
+		}
+		return outInt(c)
+	}},
+	{"ternary-branch-starting-with-not", `a > b ? !(b > c) : a > c`, func(a, b, c, n int64) tOut {
+		if a > b {
+			return outBool(!(b > c))
+		}
+		return outBool(a > c)
+	}},
+	{"ternary-branch-starting-with-a-list", `(a > b ? [a][0] + 1 : c)`, func(a, b, c, n int64) tOut {
+		if a > b {
+			return outInt(a + 1)
+		}
+		return outInt(c)
+	}},
+	// a failure raised inside a callback arrives with its message unchanged
+	{"callback-error-keeps-its-message", `m := try(func() { [1].map(func(x) { error("x%sy") }) }, func(e) { return e.message() }); d := try(func() { error("x%sy") }, func(e) { return e.message() }); m == d`, func(a, b, c, n int64) tOut {
+		return outBool(true)
+	}},
+	{"sorted-comparator-error-keeps-its-message", `m := try(func() { sorted([2, 1], func(x, y) { error("x%sy") }) }, func(e) { return e.message() }); d := try(func() { error("x%sy") }, func(e) { return e.message() }); m == d`, func(a, b, c, n int64) tOut {
+		return outBool(true)
+	}},
+	// break / continue from inside an operand position
+	{"continue-inside-a-list-literal", "s := 0; for i := 0; i < n; i++ {\n x := [1, 2, if i >= 0 { continue } else { 3 }]\n s += 1 }; s + a", func(a, b, c, n int64) tOut {
+		return outInt(a)
+	}},
+	{"break-inside-an-operand", "s := 0; for i := 0; i < n; i++ {\n x := 1 + (if i >= 0 { break } else { 3 })\n s += 1 }; s + a", func(a, b, c, n int64) tOut {
+		return outInt(a)
+	}},
+	// + builds a new list each time, also when the left operand has spare capacity
+	{"list-concatenation-results-are-independent", `l := [a, b]; l.append(c); x := l + [1]; y := l + [2]; x[3] * 10 + y[3] + len(l) * 100`, func(a, b, c, n int64) tOut {
+		return outInt(312)
+	}},
+	{"list-concatenation-leaves-the-operands", `l := [a, b]; l.append(c); x := l + [1]; x[0] = 7; l[0] - a + len(x)`, func(a, b, c, n int64) tOut {
+		return outInt(4)
+	}},
+	{"string-slice-counts-characters", `s := "héllo"; (s[1:3] == "él" && s[2:] == "llo" && s[:2] == "hé") ? a : b`, func(a, b, c, n int64) tOut { return outInt(a) }},
+	// import statements are statements: nothing stays behind, however often they run
+	{"repeated-import-in-a-loop", "s := 0; for i := 0; i < n; i++ {\n import hostmod\n import hostmod\n s += hostmod.one }; s + a", func(a, b, c, n int64) tOut {
+		return outInt(n + a)
+	}},
+	{"import-with-alias-in-a-function-called-in-a-loop", "f := func() {\n import hostmod as h\n import hostmod as h2\n return h.one + h2.one }; s := 0; for i := 0; i < n; i++ { s += f() }; s + a", func(a, b, c, n int64) tOut {
+		return outInt(2*n + a)
+	}},
+	// a statement in argument position has no value: rejected, not run
+	{"assignment-as-call-argument", `x := 0; emit(x += 1); x`, func(a, b, c, n int64) tOut { return outErr() }},
+	{"assignment-as-method-argument", `x := 0; l := [1]; l.append(x = 2); x`, func(a, b, c, n int64) tOut { return outErr() }},
+	{"assignment-as-piped-call-argument", `x := 0; f := func(p, q) { return p }; 1 | f(x = 2)`, func(a, b, c, n int64) tOut { return outErr() }},
 }
 
 func c01RunTemplate(ti int, values bool, stack bool) {
@@ -492,6 +559,7 @@ func c01RunTemplate(ti int, values bool, stack bool) {
 	a, b, c := verifrt.Int64(), verifrt.Int64(), verifrt.Int64()
 	n := int64(verifrt.Choose(4))
 	env := (&scriptEnv{}).addInt("a", a).addInt("b", b).addInt("c", c).addInt("n", n)
+	env.add("hostmod", object.NewBuiltinsModule("hostmod", map[string]object.Object{"one": object.NewInt(1)}))
 	r := runScript(t.src, env)
 	want := t.ref(a, b, c, n)
 	verifrt.Reach("done")
@@ -526,6 +594,14 @@ func c01RunTemplate(ti int, values bool, stack bool) {
 	// run-time failure of a program that has a value
 	if stack && want.val.kind != 2 && want.val.kind != 3 {
 		verifrt.Assert(r.stage != "run", t.name+":program-with-a-value-does-not-fail-at-run-time")
+	}
+	// an operand popped from an empty stack is an index fault inside the
+	// interpreter, which Run recovers and reports as "panic: ... index out of
+	// range" (other recovered faults, e.g. an integer division by zero, are
+	// ordinary script errors and not examined here)
+	if stack && r.err != nil {
+		msg := r.err.Error()
+		verifrt.Assert(!(strings.HasPrefix(msg, "panic:") && strings.Contains(msg, "index out of range")), t.name+":no-interpreter-fault")
 	}
 }
 
